@@ -103,6 +103,9 @@ def gen_image(ch, galactic=False, small=False):
     spec["aux_files"] = bool(ch.chance("aux_files", 1, 5))
     # a position-dependent psf map (imgpsf=): the restoring beam is 20 % larger in one half of the field
     spec["psf_map"] = bool(ch.chance("psf_map", 1, 8))
+    # a field far from the projection's reference point (CRPIX outside the image, as in the repository's own
+    # 1904-66_SIN test image): the pixel area on the sky differs from that at the reference pixel by 2 % or more
+    spec["offaxis"] = ch.draw("offaxis", 4) + 1 if ch.chance("offaxis?", 1, 8) else 0
     spec["noise_seed"] = ch.draw("noise_seed", 1 << 20)
     spec["noise"] = 1.0 if not ch.chance("noiseless", 1, 8) else 0.02
     rows, cols = spec["rows"], spec["cols"]
@@ -206,6 +209,13 @@ def write_image(spec, path):
         h["CTYPE1"], h["CTYPE2"] = "RA---" + proj, "DEC--" + proj
     h["CRVAL1"], h["CRVAL2"] = spec["crval"]
     h["CRPIX1"], h["CRPIX2"] = spec["cols"] / 2.0 + 0.5, spec["rows"] / 2.0 + 0.5
+    if spec.get("offaxis"):
+        # offsets in degrees; the field is moved towards the equator so that it stays clear of the poles
+        dx, dy = ((12.0, 0.0), (0.0, 12.0), (8.0, 9.0), (-9.0, 8.0))[spec["offaxis"] - 1]
+        if spec["crval"][1] < 0:
+            dy = -dy
+        h["CRPIX1"] += round(dx / pix)
+        h["CRPIX2"] += round(dy / pix)
     if spec.get("cd_matrix"):
         h["CD1_1"], h["CD1_2"], h["CD2_1"], h["CD2_2"] = -pix, 0.0, 0.0, pix
     else:
